@@ -6,6 +6,7 @@ seeds="$@"
 [ -z "$seeds" ] && seeds=$(ls seeded | grep -v '\.md$')
 for s in $seeds; do
   p=${s%%-*}
+  if grep -q '"status": "superseded' seeded/$s/meta.json 2>/dev/null; then echo "$s $p superseded (skipped)"; continue; fi
   out=$(./tools/run_seed.sh $s $p 2>&1)
   rc=$(echo "$out" | grep -o "^seed $s on $p: exit=[0-9]*" | grep -o "[0-9]*$")
   lab=$(echo "$out" | grep -A1 "^VIOLATION" | grep -v "^VIOLATION\|^--" | head -1 | awk '{print $1" "$2}')
